@@ -256,29 +256,24 @@ theorem projectSpec_meaning (emp : π → Bool) (k m : Int) (hk : k ≠ 0) (iv :
         geStart os (k * c + m) = true ∧ geEnd oe (k * c + m) = false ∧ r = (k * c + m, (some i, p)) :=
   ⟨projectSpec_sorted emp hk m iv os oe hs, mem_projectSpec emp k m iv os oe f⟩
 
-/-- **`project`** (affine `c ↦ k*c + m`, optional interval, optional shortcut; the lazy result
-    iterated by `__iter__` or `iterRange(os, oe)`) delivers `projectSpec`.
-    PARTIAL — three classes the code gets wrong are excluded by `h1 h2 h3` (open findings):
-    `h1` a fiber whose stored elements are all empty (`next()` on an exhausted generator),
-    `h2` a decreasing transform on a leaf rank whose default differs from the wrapper's default 0,
-    `h3` a shortcut the source-space assertion rejects.  Domain: a shortcut is only claimed for
-    increasing transforms and must be valid (`projValidStart`); an uncompressed rank holds no
-    content outside its active range. -/
-theorem project_spec_partial (emp wemp : π → Bool) (mk : π) (hmk : emp mk = true) (cfg : Cfg) (k m : Int) (hk : k ≠ 0)
+/-- **`project`** (affine `c ↦ k*c + m`, `k > 0` or `k < 0`, optional interval, optional shortcut;
+    the lazy result iterated by `__iter__` or `iterRange(os, oe)`) delivers `projectSpec`, for
+    every default value and also for fibers that store only empty elements.
+    PARTIAL — one class the code gets wrong is excluded by `h3` (open finding): a valid shortcut
+    that the assertion in `project` rejects because it compares a *source* coordinate with the
+    *target* interval.  Domain: a shortcut is only claimed for increasing transforms (the reversed
+    path asserts on any `start_pos`) and must be valid (`projValidStart`); an uncompressed rank
+    holds no content outside its active range. -/
+theorem project_spec_partial (emp : π → Bool) (mk : π) (hmk : emp mk = true) (cfg : Cfg) (k m : Int) (hk : k ≠ 0)
     (iv : Option (Int × Int)) (sp : Option Nat) (os oe : Option Int) (f : Fib Int π) (hs : Sorted f)
     (hU : cfg.fmt = .C ∨ withinActive emp cfg f = true)
     (hsp : ∀ i, sp = some i → 0 < k ∧ projValidStart emp k m iv i f = true)
-    (h1 : noStop emp f = true)
-    (h2 : 0 < k ∨ ∀ x ∈ f, wemp x.2 = emp x.2)
     (h3 : projStartOk iv sp f = true) :
-    project emp wemp mk cfg k m iv sp os oe f = .ok (projectSpec emp k m iv os oe f) := by
+    project emp mk cfg k m iv sp os oe f = .ok (projectSpec emp k m iv os oe f) := by
   by_cases hneg : k < 0
   · cases sp with
     | some i => have := (hsp i rfl).1; omega
-    | none =>
-      rcases h2 with h2 | h2
-      · omega
-      · exact project_rev emp wemp mk cfg hneg m iv os oe hs h1 h2
+    | none => exact project_rev emp mk cfg hneg m iv os oe hs
   · have hpos : 0 < k := by omega
     cases hf : cfg.fmt with
     | U =>
@@ -286,11 +281,20 @@ theorem project_spec_partial (emp wemp : π → Bool) (mk : π) (hmk : emp mk = 
         rcases hU with h | h
         · rw [hf] at h; cases h
         · exact h
-      exact project_fwd_U emp wemp mk hmk cfg hf hpos m iv sp os oe hs h1 h3 hin
+      exact project_fwd_U emp mk hmk cfg hf hpos m iv sp os oe hs h3 hin
     | C =>
       cases sp with
-      | none => exact project_fwd_C emp wemp mk cfg hf hpos m iv os oe hs h1
-      | some i => exact project_fwd_C_sp emp wemp mk cfg hf hpos m iv i os oe hs h1 h3 (hsp i rfl).2
+      | none => exact project_fwd_C emp mk cfg hf hpos m iv os oe hs
+      | some i => exact project_fwd_C_sp emp mk cfg hf hpos m iv i os oe hs h3 (hsp i rfl).2
+
+/-- without a shortcut nothing is excluded: **`project` = `projectSpec`** for every sorted fiber
+    (any occupancy, explicit defaults, any default value), every increasing or decreasing affine
+    transform, every interval and every range the result is iterated with. -/
+theorem project_spec (emp : π → Bool) (mk : π) (hmk : emp mk = true) (cfg : Cfg) (k m : Int) (hk : k ≠ 0)
+    (iv : Option (Int × Int)) (os oe : Option Int) (f : Fib Int π) (hs : Sorted f)
+    (hU : cfg.fmt = .C ∨ withinActive emp cfg f = true) :
+    project emp mk cfg k m iv none os oe f = .ok (projectSpec emp k m iv os oe f) :=
+  project_spec_partial emp mk hmk cfg k m hk iv none os oe f hs hU (fun i h => by cases h) rfl
 
 /-- **`prune`**: the lazy result delivers the non-empty elements of the default traversal that
     `trans_fn(i, c, p)` accepts (`i` = rank in that traversal), clipped to the range the result
@@ -334,26 +338,22 @@ example : strip (iterRange (fun v : Int => v == 0) (some (1 : Int)) (some 6) non
 #guard (shapeRefLoop (0 : Int) [(1, 5)] (pyRange 0 3 1)) == ([(0, 0), (1, 5), (2, 0)], [(0, 0), (1, 5), (2, 0)])
 #guard pyRange (-1) 6 3 == [-1, 2, 5]
 
-/-! ### the three excluded classes are real: the model (= the code) does not meet `projectSpec` there -/
+/-! ### the excluded class is real: the model (= the code) does not meet `projectSpec` there -/
 
 private def c07_emp (dflt : Int) : Int → Bool := fun v => v == dflt
 
-/-- `h1`: `Fiber([2],[0]).project(lambda c: c-2)` raises `StopIteration` -/
-example : project (c07_emp 0) (c07_emp 0) 0 {} 1 (-2) none none none none [(2, 0)] = .error .stopIteration := by rfl
-example : projectSpec (c07_emp 0) 1 (-2) none none none [(2, (0 : Int))] = [] := by decide
-/-- `h2`: `Fiber([2],[0],default=7).project(lambda c: -c-2)` yields nothing, should yield `(-4, 0)` -/
-example : project (c07_emp 7) (c07_emp 0) 7 {} (-1) (-2) none none none none [(2, 0)] = .ok [] := by rfl
-example : projectSpec (c07_emp 7) (-1) (-2) none none none [(2, (0 : Int))] = [(-4, (some 0, 0))] := by decide
 /-- `h3`: `Fiber([0,2],[5,1]).project(lambda c: c-2, interval=(-1,1), start_pos=1)` is rejected although valid -/
-example : project (c07_emp 0) (c07_emp 0) 0 {} 1 (-2) (some (-1, 1)) (some 1) none none [(0, 5), (2, 1)]
+example : project (c07_emp 0) 0 {} 1 (-2) (some (-1, 1)) (some 1) none none [(0, 5), (2, 1)]
     = .error .assertion := by rfl
 example : projValidStart (c07_emp 0) 1 (-2) (some (-1, 1)) 1 [(0, (5 : Int)), (2, 1)] = true := by decide
 example : projectSpec (c07_emp 0) 1 (-2) (some (-1, 1)) none none [(0, (5 : Int)), (2, 1)] = [(0, (some 1, 1))] := by decide
+/-- the two classes fixed in /repo (df4ea73, 2791d6a) now meet the specification -/
+example : project (c07_emp 7) 7 {} (-1) (-2) none none none none [(2, 0)] = .ok [(-4, (some 0, 0))] := by rfl
+example : project (c07_emp 0) 0 {} 1 (-2) none none none none [(2, 0)] = .ok [] := by rfl
 /-- the hypotheses of `project_spec_partial` are satisfiable by non-trivial values (decreasing
     transform with interval; increasing transform with a positive valid shortcut) -/
-example : project (c07_emp 0) (c07_emp 0) 0 {} (-2) 10 (some (1, 9)) none none none [(0, 0), (1, 5), (3, 6), (5, 7)]
+example : project (c07_emp 0) 0 {} (-2) 10 (some (1, 9)) none none none [(0, 0), (1, 5), (3, 6), (5, 7)]
     = .ok [(4, (some 2, 6)), (8, (some 1, 5))] := by rfl
-example : noStop (c07_emp 0) [(0, (0 : Int)), (1, 5), (3, 6), (5, 7)] = true := by decide
 example : projValidStart (c07_emp 0) 1 10 (some (12, 20)) 2 [(0, (0 : Int)), (1, 5), (3, 6), (5, 7)] = true ∧
     projStartOk (some (12, 20)) (some 2) [(0, (0 : Int)), (1, 5), (3, 6), (5, 7)] = true := by decide
 
